@@ -37,7 +37,7 @@ var Atoms = []string{
 }
 
 // UnaryOps is the quantifier alphabet of P (capture is a separate node kind).
-var UnaryOps = []string{"*", "+", "?", "*?", "+?", "??", "{2}", "{1,2}", "{2,}"}
+var UnaryOps = []string{"*", "+", "?", "*?", "+?", "??", "{2}", "{1,2}", "{2,}", "{0,2}"}
 
 func A(s string) *Node           { return &Node{Kind: KAtom, Atom: s} }
 func U(op string, k *Node) *Node { return &Node{Kind: KUnary, Op: op, Kids: []*Node{k}} }
